@@ -17,7 +17,7 @@ META = {
 }
 
 ASSUMPTIONS = [
-    'n < 2^63; the function does not throw; the task set is not cancelled',
+    'n < 2^63; the function does not throw; the task set is not cancelled; the functor is copyable (for_each copies it into every chunk)',
     'completion ("all applications have finished when the call / wait() returns") relies on the task set contract C01/C02: scheduled closures run '
     'exactly once before taskSet.wait() returns',
     'the cumulative boundary computation used for non-random-access iterators is tied to the model by the differential run only (bidirectional and '
@@ -90,6 +90,22 @@ def run(ctx):
     # the formerly crashing domain once more under NDEBUG (it was a division by zero there instead of the assertion)
     cnd = [c for c in cmock if in_dom(c)][:12]
     ond = plan_common.run_lines(mock_nd, ['feplan %s %d %d %d %d %d' % (c['cat'], c['n'], c['N'], c['maxT'], c['wait'], c['exec']) for c in cnd])
+    # functor capture: wait=false, chunks kept queued (instrumented task set / real pool with every worker parked on a gate) until the caller's
+    # heap functor was retargeted, poisoned and freed.  Run in their own harness processes (a use of the freed functor may crash).
+    ccap = []
+    for cat in ('ra', 'bi', 'fw', 'st'):
+        for N, nn, maxT in ((1, 5, 3), (2, 9, 8), (3, 10, 2), (4, 23, 4), (4, 4, 9), (2, 1, 2)):
+            for realp in (0, 1):
+                ccap.append({'cat': cat, 'n': nn, 'N': N, 'maxT': maxT, 'wait': 0, 'real': realp, 'api': 'p' if (N + nn + realp) % 3 == 0 else 'n'})
+        ccap.append({'cat': cat, 'n': 6, 'N': 0, 'maxT': 3, 'wait': 0, 'real': 0, 'api': 'n'})
+    for _ in range(0 if ctx.quick else 400):
+        N = ctx.rng.choice([1, 2, 3, 4, 7])
+        ccap.append({'cat': ctx.rng.choice(['ra', 'bi', 'fw', 'st']), 'n': ctx.rng.randint(1, 60), 'N': N, 'maxT': ctx.rng.choice([1, 2, N, N + 1, 100]),
+                     'wait': 0, 'real': ctx.rng.choice([0, 1]), 'api': ctx.rng.choice(['n', 'p'])})
+    cap_lines = ['fecap %s %d %d %d %d %s' % (c['cat'], c['n'], c['N'], c['maxT'], c['real'], c['api']) for c in ccap]
+    ocap = []
+    for k in range(0, len(cap_lines), 16):
+        ocap += plan_common.run_lines(mock, cap_lines[k:k + 16], timeout=120)
     ctx.phase('run')
 
     t_real, t_mock = [], []
@@ -108,12 +124,26 @@ def run(ctx):
             ns, nw = int(m.group(1)), int(m.group(2))
         t_mock.append('(%s, %s, %s, (%d, %d))' % (fe_cfg(c), 'true' if crashed else 'false',
                                                   dv.coq_list(['(%d,%s)' % (a, dv.zlit(b)) for a, b in pairs]), ns, nw))
-    res = plan_common.judge(ctx, 'c15', IMPORTS, [('judge_fe15', t_real), ('judge_feplan15', t_mock)])
+    t_cap = []
+    for c, o in zip(ccap, ocap):
+        crashed = o is None or not o.startswith('fecap')
+        counts, bad, decoy, ns = [], 0, 0, -1
+        if not crashed:
+            left, right = o.split('|')
+            counts = [int(x) for x in left.split()[2:]]
+            m = re.search(r'bad (\d+) decoy (\d+) nsched (\d+) parked (\d+)', right)
+            bad, decoy, ns = int(m.group(1)), int(m.group(2)), (int(m.group(3)) if not c['real'] else -1)
+            if c['real'] and m.group(4) != '1':
+                ctx.cov['fecap_workers_not_parked'] = ctx.cov.get('fecap_workers_not_parked', 0) + 1
+        t_cap.append('(%s, %s, %s, (%d, %d), %s)' % (fe_cfg(c), 'true' if crashed else 'false', dv.coq_list([str(x) for x in counts]), bad, decoy, dv.zlit(ns)))
+    res = plan_common.judge(ctx, 'c15', IMPORTS, [('judge_fe15', t_real), ('judge_feplan15', t_mock), ('judge_fecap15', t_cap)])
     ctx.cov['rule'] = ('for_each_n over iterator categories {random access, bidirectional, forward} x n (0..300, around the pool size) x pool size 0..7 x '
                        'maxThreads (0, 1, around the pool size, 2^31-1, 2^31, 2^32-1) x wait (zero-thread pools with wait=false included), exhaustive for N<=2, maxThreads<=3, n in {0,1,2,3,5}; real pool '
-                       '(counts) and instrumented task set (count + runner per element, closures scheduled, waits).  Non-trivial = n >= 2 and more than one '
+                       '(counts) and instrumented task set (count + runner per element, closures scheduled, waits); functor capture: wait=false with all chunks held back '
+                       '(closures deferred / every pool worker parked on a gate) while the caller\'s heap functor is retargeted, poisoned and freed, iterator categories '
+                       'vector/list/forward_list/set, for_each_n and the iterator-pair for_each.  Non-trivial = n >= 2 and more than one '
                        'chunk possible (N + wait >= 2, maxThreads >= 2); distinct = distinct inputs')
-    ctx.cov['evaluations'] += len(t_real) + len(t_mock) + 2
+    ctx.cov['evaluations'] += len(t_real) + len(t_mock) + len(t_cap) + 2
     if res is None:
         ctx.broken.append('correspondence D(C15): the model no longer evaluates (see coq_eval_errors)')
         return
@@ -135,6 +165,20 @@ def run(ctx):
             ctx.violation('for_each_n did not apply the function exactly once to each of the first n elements (or did not return): %s -> %s' % (line, str(o)[:200]),
                           {'case': c, 'cmd': line, 'harness': 'h_parfor' if kind == 'fe' else 'h_loops' + ('_nd (-DNDEBUG)' if kind.endswith('ndebug') else ''),
                            'observed': str(o)[:300]})
+    hist['functor_capture_cases'] = len(ccap)
+    for c, o, line, v in zip(ccap, ocap, cap_lines, res[2]):
+        if c['n'] >= 2:
+            distinct.add(('fecap',) + tuple(sorted(c.items())))
+        if v == 0:
+            hist['agree_and_property_holds'] += 1
+        elif v == 1:
+            hist['differs_but_property_holds'] += 1
+            ctx.broken.append('correspondence D(C15): implementation differs from the for_each model on "%s": %s' % (line, str(o)[:300]))
+        else:
+            hist['property_fails'] += 1
+            ctx.violation('for_each (wait=false) did not apply the function the caller passed exactly once per element: the queued chunks used the '
+                          'caller\'s functor object after for_each returned (it had been retargeted, poisoned and freed) or crashed: %s -> %s' % (line, str(o)[:240]),
+                          {'case': c, 'cmd': 'echo "%s" | build/harness/h_loops-*' % line, 'harness': 'h_loops', 'observed': str(o)[:300]})
     ctx.cov['distinct_nontrivial'] += len(distinct)
     ctx.cov['verdict_histogram'] = hist
     ctx.cov['traces_validated_against_impl'] += hist['agree_and_property_holds']
